@@ -7,6 +7,7 @@ import (
 	"context"
 	"fmt"
 	"io"
+	"net/http"
 	"strings"
 	"time"
 
@@ -151,6 +152,19 @@ func runC10HotJournal(c *core.Case, k int) {
 	}
 	if !judge("GET /export", hdata, posA, herr) {
 		return
+	}
+	// the same request from a plain HTTP/1.1 client (curl, a proxy): however the
+	// response is framed, an export that failed must not look complete
+	if resp, perr := (&http.Client{Transport: &http.Transport{DisableKeepAlives: true}}).Get(P.URL() + "/export?name=db"); perr == nil {
+		pdata, rerr := io.ReadAll(resp.Body)
+		_ = resp.Body.Close()
+		if resp.StatusCode != 200 && rerr == nil {
+			rerr = fmt.Errorf("status %d", resp.StatusCode)
+		}
+		c.Count("hot_exports_http1", 1)
+		if !judge("GET /export", pdata, posA, rerr) {
+			return
+		}
 	}
 	if healthViolations(c, P.Node, "export over a hot journal", detail) {
 		return
